@@ -84,7 +84,9 @@ def _mutants(s, emax):
 
 
 CUTTER_POOL = [("front", "^ACG"), ("front", "^AAC"), ("front", "^ACGA"), ("back", "CGT$"), ("back", "GGT$"), ("back", "ACGT$"), ("back", "TTG"),
-               ("front", "GAT")]
+               ("front", "GAT"), ("front", "^GTT"), ("front", "^TCA"), ("back", "TAC$"), ("back", "CCA$")]
+# indices of the anchored 5' / anchored 3' / regular entries, for the list shapes with four and five adapters of one kind
+_P5, _P3, _REG = [0, 1, 2, 8, 9], [3, 4, 5, 10, 11], [6, 7]
 
 
 def run_cutter(d, res):
@@ -99,8 +101,15 @@ def run_cutter(d, res):
 
     V = res["viol"]
     R = [r for r in alignsweep.strings("ACGT", 6 if d["tier"] == "thorough" else 5)]
-    lists = [c for n in (3, 4) for c in itertools.combinations(range(len(CUTTER_POOL)), n)]
+    lists = [c for n in (3, 4) for c in itertools.combinations(range(8), n)]
     lists = [c for c in lists if any(CUTTER_POOL[i][1].startswith("^") for i in c) and any(CUTTER_POOL[i][1].endswith("$") for i in c)]
+    # larger groups: p anchored 5' + s anchored 3' (+ a regular one) for every (p, s) with one side of four or five
+    for p_ in range(1, 6):
+        for s_ in range(1, 6):
+            if max(p_, s_) >= 4:
+                lists.append(tuple(_P5[:p_] + _P3[:s_]))
+                if p_ + s_ <= 6:
+                    lists.append(tuple(_P5[:p_] + _REG[:1] + _P3[:s_]))
     lists = lists[d["part"]:: d["parts"]]
     for combo in lists:
         for order in (combo, combo[::-1]):
@@ -431,7 +440,7 @@ def run(tier):
                     "mixed case; + three adapters of lengths 47-49 with ABSOLUTE error counts (where k/L*L truncates to k-1) against every "
                     "0..k+1-substitution neighbour pattern listed in the source; + every ORDERED PAIR of ~700 reads (plain, one N, lower case) "
                     "as consecutive look-ups in one index object (three adapter sets); + AdapterCutter with and without index on every list of 3-4 adapters "
-                    "from an 8-entry pool mixing anchored 5', anchored 3' and regular adapters (reads on which exactly one adapter matches); "
+                    "from a 12-entry pool (groups of one to five anchored 5' / anchored 3' adapters) mixing anchored 5', anchored 3' and regular adapters (reads on which exactly one adapter matches); "
                     "non-trivial = at least one adapter occurs within tolerance at the anchored end",
                     True, extra=dict(scope=_scope(tier)))
 
